@@ -92,6 +92,29 @@ describe('C18', 'other',
          'nothing material')
 
 
+# clauses added by the later validation rounds (DESIGN.md 10.6-10.12)
+LATER = {
+    'C01': 'a replaced component is dropped in place, never overwritten raw (W9); the archetype a row operation runs on was looked up for the same canonical shape (G8); allocator slots/free/generation/location are touched only inside the allocator module (A3); Archetype::clone/clone_from copy identifier, identifier column, columns and length on every path (C10b); allocate_batch numbers reused and fresh identifiers row by row (P10); the identifier cell reads its own row (W10).',
+    'C02': 'the generation bump wraps (no overflow-checked arithmetic, G2); nothing outside the allocator module resolves an identifier without the generation comparison (A3).',
+    'C03': 'the identifier handed out by single-row views is the one at `index` (W10); sub-views of query-time entries are extracted only after a filter for those sub-views was found true (G7); result iterators select archetypes with And<Views, Filter> everywhere, fold included (I1, I3); single-entity lookups resolve through locations kept current by the swap-remove fix-up (P4); ArchetypeClaims::next (S8).',
+    'C04': 'a column copied for a clone holds the source rows (W8); replace-in-place drops the old value (W9); Archetype::clone never returns a fresh empty archetype for a populated one (C10b).',
+    'C05': 'row operations walk columns with the shape the archetype was looked up for (G8); no division by size_of of a generic without a zero check (Z1); W8, W9 as for C04.',
+    'C06': 'locations stay valid input for the deserialiser (P4); the padding validator also handles the empty registry (G5i).',
+    'C07': 'every run entry point reaches the user system exactly once (S9); every claims() list recurses into its tail (T12); the list merge visits every element (T2, T2b).',
+    'C08': 'claims lists recurse (T12); iterators never visit archetypes outside And<Views, Filter> (I1, I3); per-archetype claims are views ⊔ entry views (S8).',
+    'C09': 'run_par_system / Task::run for ParSystem call the system once on every path, like their sequential twins (S9); the absent-column placeholder conserves the count (R9); the folder reduces every archetype result (C9f).',
+    'C10': 'Archetype::clone/clone_from copy all four parts (C10b); copied columns hold the rows (W8); slots are never truncated by clone_from (A1).',
+    'C11': 'the generation bump cannot panic on a deserialised maximum generation (G2); the identifier validator reads no byte of an empty buffer (G5i, LEN = 0).',
+    'C12': 'an add-on is refused only on a real claim conflict (S3q false-without-conflict); the Null entry filter matches nothing (T9).',
+    'C13': 'allocator internals are private to the allocator module (A3); non-canonical identifier bytes are rejected, so one component set has one table (G5i).',
+    'C15': 'resource claims lists recurse into the tail (T12); merged resource claims are forwarded to later add-ons (S2/S3); identical claim lists are still merged element-wise (T2); every run reaches the system (S9).',
+    'C16': 'the column equality walk answers true only through the tail and an element-wise comparison (E3); clone_from fast paths are covered by P6, P8, A1, R1.',
+    'C17': 'replace-in-place is a drop-and-assign (W9), never drop_in_place + write.',
+}
+for _pid, _txt in LATER.items():
+    PROPS[_pid]['explanation'] += ' Added by the later validation rounds: ' + _txt
+
+
 EVIDENCE_DIR = os.path.join(VERIF, 'evidence')
 
 
